@@ -15,9 +15,22 @@ aligned_message_types, return_numpy / keep_messages, return_bytes / return_messa
 and without an index file.  Every read of a history is judged on its own by the same oracle and the same Lean model / spec of
 ONE alignment, applied to what a loader that never aligns and never serves from its cache reads for the same types: what an
 aligning read returns must not depend on how earlier reads left the loader's cache.
+
+DATA READ FROM A FILE IS JUDGED BY ITS WIRE TIMESTAMPS.  Every stage that reads a log (read_case, the read histories, the
+directed wire grids) writes the P1 time of every message itself, as the two 32-bit integers (seconds, nanoseconds) of the wire
+format, on 1 s / 0.1 s / 1 ms / 1 ns grids, into payloads of every P1-time class the package can decode - the classes and
+their timestamp DECODER FAMILY (which functions of messages/timestamp.py a class's unpack() runs) are discovered, not listed.
+The abstract time of the Lean model is the wire value seconds * 10^9 + nanoseconds: two messages written with the same wire
+timestamp are at the same epoch whatever float each decoder makes of it; an inserted default's time is the wire time of the
+real messages whose float it equals exactly (WireClock).  Nothing in these stages assumes that a time is an exactly
+representable float.
 """
+import enum
 import itertools
 import json
+import os
+import struct
+import sys
 
 import numpy as np
 
@@ -51,8 +64,10 @@ _BY_NAME = None
 def by_name(name):
     global _BY_NAME
     if _BY_NAME is None:
+        from fusion_engine_client.messages import message_type_to_class
         p1, nop1 = classes()
-        _BY_NAME = {c.__name__: c for c in p1 + nop1}
+        _BY_NAME = {c.__name__: c for c in message_type_to_class.values()}
+        _BY_NAME.update({c.__name__: c for c in p1 + nop1})
     return _BY_NAME[name]
 
 
@@ -63,12 +78,276 @@ def has_p1(cls, cache={}):
     return cache[cls]
 
 
+# ---- logs whose P1 times are WIRE values written by the harness --------------------------------------------------------------
+# A wire time is the integer seconds * 10^9 + nanoseconds (None: the invalid timestamp 0xFFFFFFFF/0xFFFFFFFF).  The harness puts
+# the two 32-bit integers into the payload itself, so what "the same timestamp" means does not pass through any float.
+NS = 10 ** 9
+MAX_PER_TYPE = 64           # messages of one type in one log (the serial that identifies a message must fit every class)
+MAX_WIRE_SEC = 2 ** 20      # below 2^53 ns by far: every decoder formula in use is strictly monotone on these values
+
+
+class Unknown(object):
+    """The time of an entry whose float is the time of no message of the log."""
+    def __init__(self, f):
+        self.f = f
+
+    def __repr__(self):
+        return 'not-a-time-of-the-log(%r)' % self.f
+
+
+class FileClass(object):
+    def __init__(self, cls, p1, off, family, field, setter, getter):
+        self.cls, self.p1, self.off, self.family, self.field, self.set_serial, self.get_serial = cls, p1, off, family, field, setter, getter
+
+
+def _serial_fields(default):
+    """Candidate fields to carry a small serial number: (name, setter, getter)."""
+    from fusion_engine_client.messages import Timestamp
+    for k, v in vars(default).items():
+        if k == 'p1_time' or isinstance(v, (bool, enum.Enum)):
+            continue
+        if isinstance(v, Timestamp):
+            yield k, (lambda m, s, k=k: setattr(m, k, Timestamp(1000.0 + s))), (lambda m, k=k: float(getattr(m, k)) - 1000.0)
+        elif isinstance(v, (int, np.integer)):
+            yield k, (lambda m, s, k=k: setattr(m, k, int(s))), (lambda m, k=k: getattr(m, k))
+        elif isinstance(v, float):
+            yield k, (lambda m, s, k=k: setattr(m, k, float(s))), (lambda m, k=k: getattr(m, k))
+        elif isinstance(v, np.ndarray) and v.dtype.kind == 'f' and v.size:
+            def st(m, s, k=k):
+                a = getattr(m, k).copy()
+                a.flat[0] = float(s)
+                setattr(m, k, a)
+            yield k, st, (lambda m, k=k: float(getattr(m, k).flat[0]))
+
+
+def _timestamp_functions_run_by_unpack(cls, payload):
+    """Which functions of messages/timestamp.py the class's unpack() runs: the decoder family of the class."""
+    import fusion_engine_client.messages.timestamp as tsmod
+    tsfile = tsmod.__file__
+    seen = set()
+
+    def prof(frame, event, arg):
+        if event == 'call' and frame.f_code.co_filename == tsfile:
+            seen.add(frame.f_code.co_qualname)
+    m = cls()
+    sys.setprofile(prof)
+    try:
+        m.unpack(payload)
+    finally:
+        sys.setprofile(None)
+    return m, seen
+
+
+_FILE_CLASSES = None
+
+
+def file_classes():
+    """Every message class of the package that can go through a log in these stages, discovered on the real classes:
+    a default instance packs and unpacks; some field carries every serial 1..MAX_PER_TYPE through pack()/unpack() exactly (it
+    identifies the written message whatever its time decodes to); for a class with p1_time (the code's own predicate) the
+    8 bytes of the payload that hold it are located by packing two times and verified by decoding a wire value written
+    there.  family: the timestamp functions its unpack() runs, '+'-joined (constructors left out)."""
+    global _FILE_CLASSES
+    if _FILE_CLASSES is not None:
+        return _FILE_CLASSES
+    from fusion_engine_client.messages import message_type_to_class, Timestamp
+    res = {}
+    for _, cls in sorted(message_type_to_class.items(), key=lambda kv: int(kv[0])):
+        try:
+            d = cls()
+            base = d.pack()
+            p1 = has_p1(cls)
+        except Exception:       # noqa
+            continue
+        found = None
+        for k, st, gt in _serial_fields(d):
+            try:
+                ok = True
+                for sn in range(1, MAX_PER_TYPE + 1):
+                    m = cls()
+                    st(m, sn)
+                    m2 = cls()
+                    m2.unpack(m.pack())
+                    if not gt(m2) == sn:
+                        ok = False
+                        break
+                v0 = gt(cls())
+                if ok and not (v0 == v0 and 1 <= v0 <= MAX_PER_TYPE):
+                    found = (k, st, gt)
+                    break
+            except Exception:       # noqa
+                continue
+        if found is None:
+            continue
+        off, family = None, None
+        if p1:
+            try:
+                a, b = cls(), cls()
+                a.p1_time, b.p1_time = Timestamp(1.25), Timestamp(2.5)
+                ba, bb = a.pack(), b.pack()
+                diff = [i for i in range(min(len(ba), len(bb))) if ba[i] != bb[i]]
+                if not diff or len(ba) != len(bb) or diff[-1] - (diff[0] - diff[0] % 4) >= 8:
+                    continue
+                off = diff[0] - diff[0] % 4
+                pl = bytearray(base)
+                pl[off: off + 8] = struct.pack('<II', 7, 250000000)
+                m, fns = _timestamp_functions_run_by_unpack(cls, bytes(pl))
+                if float(m.p1_time) != 7.25:
+                    continue
+                pl[off: off + 8] = struct.pack('<II', 0xFFFFFFFF, 0xFFFFFFFF)
+                m = cls()
+                m.unpack(bytes(pl))
+                if float(m.p1_time) == float(m.p1_time):
+                    continue
+                family = '+'.join(sorted(f for f in fns if not f.endswith('__init__'))) or 'none'
+            except Exception:       # noqa
+                continue
+        res[cls.__name__] = FileClass(cls, p1, off, family, *found)
+    fams = file_families(res)
+    if len(fams) < 2:
+        raise fv.InfraError('fewer than two timestamp decoder families among the P1-time classes: %s' % sorted(fams))
+    _FILE_CLASSES = res
+    return res
+
+
+def file_families(fcs=None):
+    """{family: [class names]} of the P1-time classes that can go through a log."""
+    fcs = file_classes() if fcs is None else fcs
+    fams = {}
+    for n, fc in fcs.items():
+        if fc.p1:
+            fams.setdefault(fc.family, []).append(n)
+    return fams
+
+
+def write_wire_log(path, written, order):
+    """written: [[class name, [wire time | None, ...]], ...]; order: for every message of the file the position in `written`
+    of its type.  The k-th message of a type carries the serial k (from 1) and, if the class has P1 time, the k-th wire time."""
+    from fusion_engine_client.messages import MessageHeader
+    fcs = file_classes()
+    queues = []
+    for name, times in written:
+        fc = fcs[name]
+        if len(times) > MAX_PER_TYPE:
+            raise fv.InfraError('more than %d messages of one type' % MAX_PER_TYPE)
+        q = []
+        for sn, w in enumerate(times, 1):
+            m = fc.cls()
+            fc.set_serial(m, sn)
+            payload = bytearray(m.pack())
+            if fc.p1:
+                if w is not None and not (0 <= w < MAX_WIRE_SEC * NS):
+                    raise fv.InfraError('wire time %r outside the range of the harness' % (w,))
+                payload[fc.off: fc.off + 8] = struct.pack('<II', *((0xFFFFFFFF, 0xFFFFFFFF) if w is None else divmod(w, NS)))
+            q.append(bytes(payload))
+        queues.append(q)
+    with open(path, 'wb') as f:
+        for seq, qi in enumerate(order):
+            cls = fcs[written[qi][0]].cls
+            h = MessageHeader(cls.MESSAGE_TYPE)
+            h.message_version = cls().get_version()
+            h.sequence_number = seq
+            f.write(h.pack(payload=queues[qi].pop(0)))
+    return path
+
+
+class WireClock(object):
+    """Message -> abstract time, for one written log.  A message of the log (known by its serial) has the wire time the
+    harness wrote for it.  Any other object (a default inserted by the code) has the wire time of the messages of the log whose
+    decoded float equals its float exactly - the property asks an inserted message to carry the timestamp of that epoch - and
+    Unknown if there is none."""
+    def __init__(self, written):
+        self.wire = {n: list(ts) for n, ts in written}
+        self.floats = {}
+        self.problems = []
+
+    def serial(self, m):
+        name = type(m).__name__
+        fc = file_classes().get(name)
+        if fc is None or name not in self.wire:
+            return None
+        try:
+            v = fc.get_serial(m)
+            if v == v and v == int(v) and 1 <= int(v) <= len(self.wire[name]):
+                return int(v)
+        except Exception:       # noqa
+            pass
+        return None
+
+    def learn(self, messages, complete_for=None):
+        """Registers the floats that the decoders made of the wire times (messages: decoded messages of the log, of one type).
+        complete_for: the class name if `messages` is to be every written message of that type, in order."""
+        for i, m in enumerate(messages):
+            sn = self.serial(m)
+            if sn is None or (complete_for is not None and sn != i + 1):
+                self.problems.append('%s message %d of the unaligned read is not the written message (serial %r)' % (type(m).__name__, i, sn))
+                continue
+            if not has_p1(type(m)):
+                continue
+            w = self.wire[type(m).__name__][sn - 1]
+            f = float(m.p1_time)
+            if (w is None) != (f != f):
+                self.problems.append('%s: wire time %r decoded as %r' % (type(m).__name__, w, f))
+            elif w is not None and self.floats.setdefault(f, w) != w:
+                self.problems.append('the wire times %r and %r decode to the same float %r' % (self.floats[f], w, f))
+        if complete_for is not None and len(messages) != len(self.wire.get(complete_for, [])):
+            self.problems.append('%s: %d messages written, %d read' % (complete_for, len(self.wire.get(complete_for, [])), len(messages)))
+
+    def of_float(self, f):
+        if f != f:
+            return None
+        return self.floats.get(f, Unknown(f))
+
+    def __call__(self, m):
+        if not has_p1(type(m)):
+            return None
+        sn = self.serial(m)
+        if sn is not None:
+            return self.wire[type(m).__name__][sn - 1]
+        return self.of_float(float(m.p1_time))
+
+
+GRIDS = [('1s', NS), ('0.1s', NS // 10), ('1ms', NS // 1000), ('1ns', 1)]
+
+
+def to_wire(types, rng, grid=None, base=None):
+    """Maps the small non-negative integers that stand for times in a generated case onto a grid of wire times:
+    k -> base + k * step (order and equality preserved).  Returns (types, grid name)."""
+    name, step = grid if grid is not None else rng.choice(GRIDS + GRIDS[1:])
+    if base is None:
+        sec = rng.choice([0, 0, rng.randrange(0, 1000), rng.randrange(0, MAX_WIRE_SEC - 1000)])
+        if step == NS:
+            ns = rng.choice([0, 0, rng.randrange(0, 10) * (NS // 10), rng.randrange(0, NS)])
+        elif step == 1:
+            ns = rng.choice([0, rng.randrange(0, NS - 1000)])
+        else:
+            ns = 0
+        base = sec * NS + ns
+    out = [[n, [None if t is None else base + abs(int(t)) * step for t in ts]] for n, ts in types]
+    return out, name
+
+
+def count_wire(ctx, written, req=None):
+    """Coverage counters of one written log."""
+    fcs = file_classes()
+    al = [n for n, _ in written if fcs[n].p1 and (req is None or n in req)]
+    fams = set(fcs[n].family for n in al)
+    ctx.count('file_logs_aligned_types_from_%d_decoder_families' % len(fams))
+    ws = [w for n, ts in written if fcs[n].p1 for w in ts if w is not None]
+    inexact = sum(1 for w in set(ws) if w % NS % 5 ** 9)         # ns / 10^9 is a dyadic fraction iff 5^9 divides ns
+    if inexact:
+        ctx.count('file_logs_with_times_that_no_float_represents_exactly')
+    ctx.count('file_wire_times_that_no_float_represents_exactly', inexact)
+
+
 # ---- one case -------------------------------------------------------------------------------------------------------
 # case = {'mode': 'drop'|'insert', 'req': None | [class names], 'req_form': 'type'|'class'|'mixed',
 #         'types': [[class name, [time|None, ...]], ...]}          (None = invalid P1 time; for classes without P1 time the
 #                                                                    entries only give the number of messages)
 
 def tkey(t, scale=1):
+    if isinstance(t, Unknown):
+        return 'x%r' % t.f
     return 'n' if t is None else str(int(t * scale))
 
 
@@ -131,10 +410,11 @@ def run_impl(case):
     return call_align(build(case), case)
 
 
-def call_align(data, case, snap_cache=None):
+def call_align(data, case, snap_cache=None, timeof=None):
     """One time_align_data() call on `data` in whatever state it is.  The 'input objects' are the messages listed
     immediately before the call.  snap_cache: {id(object): content snapshot} known to be current (taken after the previous
-    call of a history, nothing ran in between)."""
+    call of a history, nothing ran in between).  timeof: message -> abstract time (default: its float; data read from a
+    log: its wire time, WireClock)."""
     from fusion_engine_client.analysis.data_loader import DataLoader, TimeAlignmentMode
     keys = list(data.keys())
     mds = [data[k] for k in keys]
@@ -166,19 +446,20 @@ def call_align(data, case, snap_cache=None):
     except Exception as e:      # noqa
         err = '%s: %s' % (type(e).__name__, e)
     return {'data': data, 'keys': keys, 'mds': mds, 'originals': originals, 'ids': ids, 'snaps': snaps, 'meta': meta,
-            'ret': ret, 'err': err}
+            'ret': ret, 'err': err, 'timeof': timeof}
 
 
 def impl_text(case, r):
     """The result in the driver's answer format."""
     out = []
+    timeof = r.get('timeof') or ftime
     for k, (name, _) in enumerate(case['types']):
         cls = by_name(name)
         p = has_p1(cls)
         items = []
         for m in r['mds'][k].messages:
             i = r['ids'][k].get(id(m))
-            t = tkey(ftime(m), case.get('scale', 1)) if p else 'n'
+            t = tkey(timeof(m), case.get('scale', 1)) if p else 'n'
             items.append(('o%d@%s' % (i, t)) if i is not None else ('f@%s' % t))
         out.append('%d:%s' % (int(cls.MESSAGE_TYPE), ','.join(items)))
     return ';'.join(out)
@@ -243,11 +524,18 @@ def oracle(ctx, case, r, prefix='C15/', replay=None, note=''):
         for i in r['ids'][k]:
             all_ids[i] = k
     first_len = None
+    timeof = r.get('timeof') or ftime
     for k in aligned:
         name, times = case['types'][k]
         cls = by_name(name)
         msgs = r['mds'][k].messages
-        got = [ftime(m) for m in msgs]
+        got = [timeof(m) for m in msgs]
+        for pos, t in enumerate(got):
+            if isinstance(t, Unknown):
+                # (data read from a log) the entry is no message of the log and its time is the decoded time of none
+                return bad('inserted-time-is-no-time-of-the-data', '%s: position %d carries the time %r; no message of the aligned '
+                           'types has this time (times of the log, as decoded: %s)'
+                           % (name, pos, t.f, sorted(set(f for kk in aligned for f in map(ftime, r['originals'][kk]) if f is not None))[:40]))
         gv = [t for t in got if t is not None]
         if first_len is None:
             first_len = len(msgs)
@@ -295,6 +583,14 @@ def oracle(ctx, case, r, prefix='C15/', replay=None, note=''):
                     return bad('inserted-not-default', '%s: inserted object at %s is not default-valued' % (name, t))
                 if not isinstance(m.p1_time, type(cls().p1_time)):
                     ctx.count('observation_inserted_p1_time_is_' + type(m.p1_time).__name__)
+    # pairwise equal timestamps: at every position the aligned types carry the same float (real and inserted entries alike)
+    rows = [[ftime(m) for m in r['mds'][k].messages] for k in aligned]
+    for pos in range(first_len or 0):
+        col = [row[pos] for row in rows]
+        if any(c != col[0] for c in col[1:]):
+            return bad('timestamps-at-one-position-differ', 'position %d: %s' % (pos, ', '.join(
+                '%s %r (%s)' % (case['types'][k][0], c, 'a message of the input' if id(r['mds'][k].messages[pos]) in r['ids'][k] else 'inserted')
+                for k, c in zip(aligned, col))))
     return True
 
 
@@ -397,7 +693,7 @@ def do_numpy(data, op):
                     pass            # documented: the class has no numeric form
 
 
-def run_history(ctx, data, names, ops, replay, scale=1, prefix='C15/history-', first_step=0, before=()):
+def run_history(ctx, data, names, ops, replay, scale=1, prefix='C15/history-', first_step=0, before=(), timeof=None):
     """Applies `ops` to `data` in place.  Every time_align_data() call is judged by oracle() against the lists found
     immediately before it.  Returns (steps, complete): steps = [(step case, result text, ok)] for the calls made,
     complete = every operation was carried out and judged correct (then the final lists are meaningful)."""
@@ -430,9 +726,9 @@ def run_history(ctx, data, names, ops, replay, scale=1, prefix='C15/history-', f
             continue
         step = {'mode': op['mode'], 'req': op['req'], 'req_form': op.get('req_form', 'type'),
                 'req_container': op.get('req_container', 'list'), 'scale': scale,
-                'types': [[n, [ftime(m) if has_p1(by_name(n)) else None for m in lst]] for n, lst in zip(names, pre)]}
+                'types': [[n, [(timeof or ftime)(m) if has_p1(by_name(n)) else None for m in lst]] for n, lst in zip(names, pre)]}
         had_numpy = [isinstance(md.__dict__.get('p1_time'), np.ndarray) for md in mds]
-        r = call_align(data, step, cache)
+        r = call_align(data, step, cache, timeof=timeof)
         classify(ctx, step)
         note = 'call %d of the history [%s] -> %s: ' % (first_step + len(steps) + 1, ' '.join(done), op_text(op))
         ok = oracle(ctx, step, r, prefix=prefix, replay=replay, note=note)
@@ -577,13 +873,16 @@ def sequences(ctx):
     return cases
 
 
-def random_case(rng):
-    p1, nop1 = classes()
+def random_case(rng, p1names=None, nop1names=None):
+    """p1names / nop1names: the classes to draw from (default: classes())."""
+    if p1names is None:
+        p1, nop1 = classes()
+        p1names, nop1names = [c.__name__ for c in p1], [c.__name__ for c in nop1]
     ntypes = rng.choice([1, 2, 2, 3, 3, 4, 4, 5])
-    pool = [c.__name__ for c in p1] + [c.__name__ for c in nop1]
+    pool = list(p1names) + list(nop1names)
     names = rng.sample(pool, min(ntypes, len(pool)))
     if not any(has_p1(by_name(n)) for n in names) and rng.random() < 0.8:
-        names[0] = p1[0].__name__
+        names[0] = p1names[0]
     span = rng.choice([3, 6, 12, 40])
     style = rng.choice(['sets', 'sets', 'dups', 'unsorted', 'wild'])
     base = sorted(rng.sample(range(0, span * 2), min(span, rng.randrange(1, span + 1))))
@@ -751,130 +1050,217 @@ def numpy_model(ctx, n):
 
 
 # ---- through DataLoader.read(time_align=...) on real files ----------------------------------------------------------
-PACKABLE = ['PoseMessage', 'GNSSInfoMessage', 'PoseAuxMessage', 'IMUOutput', 'EventNotificationMessage']
+def file_pool(rng):
+    """Names for one random log: P1-time classes of every decoder family (two of each, if there are) and one more, and up
+    to three classes without P1 time."""
+    fcs = file_classes()
+    p1 = []
+    for fam, names in sorted(file_families().items()):
+        p1 += rng.sample(names, min(2, len(names)))
+    rest = [n for n, fc in fcs.items() if fc.p1 and n not in p1]
+    if rest:
+        p1.append(rng.choice(rest))
+    rng.shuffle(p1)
+    nop1 = [n for n, fc in sorted(fcs.items()) if not fc.p1]
+    return p1, rng.sample(nop1, min(3, len(nop1)))
+
+
+def random_file_case(rng, limit=12):
+    """random_case over the classes that can go through a log, its times mapped onto a grid of wire times."""
+    while True:
+        p1, nop1 = file_pool(rng)
+        case = random_case(rng, p1, nop1)
+        pool = set(p1 + nop1)
+        case['types'] = [[nm, ts[:limit]] for nm, ts in case['types'] if nm in pool]
+        if case['req'] is not None:
+            case['req'] = [nm for nm in case['req'] if nm in file_classes()]
+        if case['types']:
+            break
+    case['types'], case['grid'] = to_wire(case['types'], rng)
+    return case
 
 
 def read_case(ctx, case, workdir, tag):
-    """Writes the messages of `case` to a log, reads it unaligned and aligned with fresh loaders, and compares the aligned
-    result with the Lean model/spec applied to the unaligned result (objects matched by content, every message is distinct).
-    case['read_numpy']: the aligned read also converts (return_numpy=True, keep_messages=True); case['ops']: operations
-    applied afterwards to the dict read() returned (a history that starts with the alignment made by read())."""
+    """Writes the messages of `case` (wire times) to a log, reads it unaligned and aligned with fresh loaders, and judges the
+    aligned result by the property oracle and the Lean model/spec applied to the WRITTEN wire times (objects matched by
+    content with the unaligned read; every message is distinct).
+    case['read_numpy']: the aligned read also converts (return_numpy=True, keep_messages=True); case['read_align'] False:
+    the second read does not align either (the alignment is then made by the operations); case['ops']: operations applied
+    afterwards to the dict read() returned (a history that starts with the alignment made by read())."""
     import os
     from fusion_engine_client.analysis.data_loader import DataLoader, TimeAlignmentMode
-    from fusion_engine_client.parsers import FusionEngineEncoder
     rng = ctx.rng
-    data = build(case)
-    queues = [list(md.messages) for md in data.values()]
-    path = os.path.join(workdir, 'c15_%s.p1log' % tag)
-    enc = FusionEngineEncoder()
-    with open(path, 'wb') as f:
-        while any(queues):
-            q = rng.choice([q for q in queues if q])
-            f.write(enc.encode_message(q.pop(0)))
-    cls_list = [by_name(n) for n, _ in case['types']]
+    written = case['types']
+    order = case.get('order')
+    if order is None:
+        order = file_order(rng, written)
+    path = write_wire_log(os.path.join(workdir, 'c15_%s.p1log' % tag), written, order)
+    cls_list = [by_name(n) for n, _ in written]
     req = None if case['req'] is None else [by_name(n) for n in case['req']]
     mode = TimeAlignmentMode.DROP if case['mode'] == 'drop' else TimeAlignmentMode.INSERT
+    by_read = case.get('read_align', True)
     nt = case.get('threads')        # None: the indexer's default worker pool (slow to start); 1: indexed in this process
+    seen = {'mode': case['mode'], 'req': case['req'], 'via': 'read', 'written': written, 'order': order, 'grid': case.get('grid'),
+            'read_numpy': bool(case.get('read_numpy')), 'read_align': by_read, 'ops': case.get('ops', []), 'threads': nt}
+    site = 'C15/read-%s' % case['mode']
     try:
         r0 = DataLoader(path, num_threads=nt).read(message_types=cls_list, show_progress=False)
+        kw = {'time_align': mode, 'aligned_message_types': req} if by_read else {}
         if case.get('read_numpy'):
-            r1 = DataLoader(path, num_threads=nt).read(message_types=cls_list, show_progress=False, time_align=mode,
-                                                       aligned_message_types=req, return_numpy=True, keep_messages=True)
+            r1 = DataLoader(path, num_threads=nt).read(message_types=cls_list, show_progress=False, return_numpy=True,
+                                                       keep_messages=True, **kw)
             ctx.count('through_read_time_align_return_numpy')
         else:
-            r1 = DataLoader(path, num_threads=nt).read(message_types=cls_list, show_progress=False, time_align=mode,
-                                                       aligned_message_types=req)
+            r1 = DataLoader(path, num_threads=nt).read(message_types=cls_list, show_progress=False, **kw)
     except Exception as e:      # noqa
-        ctx.violation('C15/read-%s-raised' % case['mode'], 'read(time_align=...) raised %s: %s' % (type(e).__name__, e), case)
+        ctx.violation(site + '-raised', 'read(time_align=...) raised %s: %s' % (type(e).__name__, e), seen)
         return None
     if list(r0.keys()) != list(r1.keys()):
-        ctx.violation('C15/read-%s-dict-changed' % case['mode'], 'aligned read returns different keys', case)
+        ctx.violation(site + '-dict-changed', 'aligned read returns different keys', seen)
         return None
-    names = [r0[k].message_class.__name__ for k in r0]
-    seen = {'types': [[n, [ftime(m) if has_p1(by_name(n)) else None for m in r0[k].messages]] for n, k in zip(names, r0)],
-            'mode': case['mode'], 'req': case['req'], 'via': 'read', 'written': case['types'],
-            'read_numpy': bool(case.get('read_numpy')), 'ops': case.get('ops', []), 'threads': nt}
-    out = []
-    for n, k in zip(names, r0):
-        cls = by_name(n)
+    keys = list(r0.keys())
+    names = [r0[k].message_class.__name__ for k in keys]
+    clock = WireClock(written)
+    for n, k in zip(names, keys):
+        clock.learn(r0[k].messages, complete_for=n)
+    if clock.problems or sorted(names) != sorted(n for n, _ in written):
+        ctx.disagree('an unaligned read of a written log does not show the written messages (the harness relies on it): %s'
+                     % '; '.join(clock.problems[:3] or ['types %s' % names]), seen)
+        return None
+    count_wire(ctx, written, case['req'])
+    # one alignment of the written times; without read_align the read is the alignment of no type
+    step = {'mode': case['mode'], 'req': case['req'] if by_read else [],
+            'types': [[n, [clock(m) for m in r0[k].messages]] for n, k in zip(names, keys)]}
+    seen['types'] = step['types']
+    originals = [list(r0[k].messages) for k in keys]
+    snaps = [[repr(canon.canon(m)) for m in lst] for lst in originals]
+    views = []
+    for k, lst, sn in zip(keys, originals, snaps):
         idx = {}
-        for i, m in enumerate(r0[k].messages):
-            idx.setdefault(repr(canon.canon(m)), i)
-        items = []
-        for m in r1[k].messages:
-            i = idx.get(repr(canon.canon(m)))
-            t = tkey(ftime(m)) if has_p1(cls) else 'n'
-            if i is None and has_p1(cls):
-                v = dict(vars(m))
-                v.pop('p1_time', None)
-                if type(m) is not cls or repr(canon.canon(v)) != default_snapshot(cls):
-                    ctx.violation('C15/read-%s-entry-neither-read-nor-default' % case['mode'],
-                                  '%s: an entry at %s is neither a message of the log nor default-valued' % (n, t), seen)
-                    return None
-            items.append(('o%d@%s' % (i, t)) if i is not None else ('f@%s' % t))
-        out.append('%d:%s' % (int(cls.MESSAGE_TYPE), ','.join(items)))
+        for i, x in enumerate(sn):
+            idx.setdefault(x, i)
+        views.append(_Listed(r1[k], [lst[i] if i is not None else m for m, i in ((m, idx.get(repr(canon.canon(m)))) for m in r1[k].messages)]))
+    data = dict(zip(keys, views))
+    r = {'data': data, 'ret': data, 'keys': keys, 'mds': views, 'originals': originals,
+         'ids': [{id(m): i for i, m in enumerate(lst)} for lst in originals], 'snaps': snaps,
+         'meta': [(r0[k].message_type, r0[k].message_class) for k in keys], 'err': None, 'matched_by_content': True,
+         'timeof': clock}
+    how = 'read(time_align=%s%s)' % (op_text({'op': 'align', 'mode': case['mode'], 'req': case['req']}),
+                                     ',return_numpy' if seen['read_numpy'] else '') if by_read else 'read()'
+    ok = oracle(ctx, step, r, prefix='C15/read-', replay=seen, note=how + ' of a log with the wire times "written": ')
+    txt = impl_text(step, r)
     steps = []
-    if seen['ops']:
+    if ok and seen['ops']:
         ctx.count('through_read_then_more_operations')
-        how = 'read(time_align=%s%s)' % (op_text({'op': 'align', 'mode': case['mode'], 'req': case['req']}),
-                                         ',return_numpy' if seen['read_numpy'] else '')
-        steps, _ = run_history(ctx, r1, names, seen['ops'], seen, prefix='C15/read-history-', first_step=1, before=[how])
-    return seen, ';'.join(out), steps
+        steps, _ = run_history(ctx, r1, names, seen['ops'], seen, prefix='C15/read-history-', first_step=1, before=[how], timeof=clock)
+    return seen, step, txt, steps, ok
 
 
-def run_read_cases(ctx, n):
+def run_read_cases(ctx, cases):
     import shutil
     import tempfile
     workdir = tempfile.mkdtemp(prefix='c15_', dir=fv.BUILD)
     lines, pending = [], []
     try:
-        for j in range(n):
-            case = random_case(ctx.rng)
-            case['types'] = [[nm, [None if t is None else float(abs(int(t))) for t in ts][:12]] for nm, ts in case['types'] if nm in PACKABLE]
-            if case['req'] is not None:
-                case['req'] = [nm for nm in case['req'] if nm in PACKABLE]
-            if not case['types']:
-                continue
-            case['threads'] = None if j % 8 == 0 else 1
-            # every other case goes on after read(): numeric conversion by read() itself or afterwards, further calls
-            if j % 2:
-                case['read_numpy'] = ctx.rng.random() < 0.5
-                more = random_history(ctx.rng)['ops']
-                names = [nm for nm, _ in case['types']]
-                for op in more:
-                    if op['op'] == 'align' and op['req'] is not None:
-                        op['req'] = [nm for nm in op['req'] if nm in PACKABLE]
-                    if op['op'] == 'numpy' and op['on'] is not None:
-                        op['on'] = [nm for nm in names if ctx.rng.random() < 0.6]
-                if not case['read_numpy'] and ctx.rng.random() < 0.7:
-                    more.insert(0, {'op': 'numpy', 'remove_nan': True, 'on': None})
-                case['ops'] = more
+        for j, case in enumerate(cases):
             res = read_case(ctx, case, workdir, str(j))
+            for f in os.listdir(workdir):
+                os.remove(os.path.join(workdir, f))
             if res is None:
                 continue
-            seen, txt, steps = res
-            classify(ctx, seen)
-            ctx.count('through_read_time_align')
+            seen, step, txt, steps, ok = res
+            classify(ctx, step)
+            ctx.count('through_read_time_align' if seen['read_align'] else 'through_time_align_data_on_a_read_dict')
+            ctx.count('file_grid_%s' % seen.get('grid'))
             base = len(lines)
-            lines.append(model_line('align', seen))
-            lines.append(model_line('alignspec', seen))
-            ctx.case('read ' + lines[-2], nontrivial=nontrivial(seen))
-            for step, _, _, _ in steps:
-                lines.append(model_line('align', step))
-                lines.append(model_line('alignspec', step))
-            pending.append((seen, txt, steps, base))
+            lines.append(model_line('align', step))
+            lines.append(model_line('alignspec', step))
+            ctx.case('read ' + lines[-2], nontrivial=nontrivial(step))
+            for st, _, _, _ in steps:
+                lines.append(model_line('align', st))
+                lines.append(model_line('alignspec', st))
+            pending.append((seen, step, txt, steps, ok, base))
     finally:
         shutil.rmtree(workdir, ignore_errors=True)
     outs = ctx.driver(lines)
-    for seen, txt, steps, base in pending:
-        judge_read(ctx, seen, txt, steps, outs[base: base + 2 + 2 * len(steps)])
+    for seen, step, txt, steps, ok, base in pending:
+        judge_read(ctx, seen, txt, steps, ok, outs[base: base + 2 + 2 * len(steps)])
+    for seen, step, txt, steps, ok, _ in pending[:: max(1, len(pending) // 2)][:2]:
+        ctx.sample({'read_case': seen, 'result': txt})
 
 
-def judge_read(ctx, seen, txt, steps, outs):
+def random_read_cases(ctx, n):
+    cases = []
+    for j in range(n):
+        case = random_file_case(ctx.rng)
+        case['threads'] = None if j % 8 == 0 else 1
+        names = [nm for nm, _ in case['types']]
+        # every other case goes on after read(): numeric conversion by read() itself or afterwards, further calls
+        if j % 2:
+            case['read_numpy'] = ctx.rng.random() < 0.5
+            more = random_history(ctx.rng)['ops']
+            for op in more:
+                if op['op'] == 'align' and op['req'] is not None:
+                    op['req'] = [nm for nm in names if ctx.rng.random() < 0.6]
+                if op['op'] == 'numpy' and op['on'] is not None:
+                    op['on'] = [nm for nm in names if ctx.rng.random() < 0.6]
+            if not case['read_numpy'] and ctx.rng.random() < 0.7:
+                more.insert(0, {'op': 'numpy', 'remove_nan': True, 'on': None})
+            case['ops'] = more
+        elif j % 4 == 0:
+            # the alignment is made by time_align_data() on the dict an unaligned read returned (objects known by id())
+            case['read_align'] = False
+            case['ops'] = [{'op': 'align', 'mode': case['mode'], 'req': case['req'], 'req_form': case['req_form'],
+                            'req_container': case['req_container']}]
+        cases.append(case)
+    return cases
+
+
+def wire_grid(ctx):
+    """Directed: every P1-time class that can go through a log, with a partner from EVERY decoder family (rotating; all
+    partners in the thorough tier) and now and then a third type, 20 epochs k = 1..20 of a grid with different holes per
+    type, both modes on the 0.1 s grid from 0 and one more grid / base (all grids in the thorough tier), aligned by
+    read(time_align=...) or by time_align_data() on the dict of an unaligned read."""
+    rng = ctx.rng
+    fams = file_families()
+    p1 = sorted(n for ns in fams.values() for n in ns)
+    cases = []
+    n = 0
+    for X in p1:
+        for fam in sorted(fams):
+            partners = [y for y in fams[fam] if y != X]
+            if not partners:
+                continue
+            for Y in (partners if ctx.thorough else [partners[(p1.index(X) + n) % len(partners)]]):
+                n += 1
+                plans = [('drop', GRIDS[1], 0), ('insert', GRIDS[1], 0)]
+                extra = [(m, g, None) for m in ('drop', 'insert') for g in GRIDS]
+                plans += extra if ctx.thorough else [extra[n % len(extra)]]
+                for mode, grid, base in plans:
+                    ks = list(range(1, 21))
+                    types = [[X, [k for k in ks if k not in rng.sample(ks, 2)]], [Y, [k for k in ks if k not in rng.sample(ks, 3)]]]
+                    if rng.random() < 0.4:
+                        Z = rng.choice([z for z in p1 if z not in (X, Y)])
+                        types.append([Z, [k for k in ks if rng.random() < 0.8]])
+                    if rng.random() < 0.3:
+                        types[0][1].insert(rng.randrange(len(types[0][1])), rng.choice(types[0][1]))     # a repeated epoch
+                    if rng.random() < 0.3:
+                        rng.shuffle(types[1][1])
+                    rng.shuffle(types)
+                    wt, gname = to_wire(types, rng, grid, base)
+                    case = {'mode': mode, 'req': None if rng.random() < 0.7 else [X, Y], 'types': wt, 'grid': gname, 'threads': 1}
+                    if n % 3 == 0:
+                        case['read_align'] = False
+                        case['ops'] = [{'op': 'align', 'mode': mode, 'req': case['req']}]
+                    cases.append(case)
+    return cases
+
+
+def judge_read(ctx, seen, txt, steps, ok, outs):
     mo, so = outs[0], outs[1]
     if txt != mo:
         ctx.disagree('read(time_align) != model: impl=%s model=%s' % (txt[:300], mo[:300]), seen)
-    if txt != so:
+    if ok and txt != so:
         ctx.violation('C15/read-%s-differs-from-spec' % seen['mode'], 'impl=%s spec=%s' % (txt[:300], so[:300]), seen)
     ctx.cov['traces_validated_against_impl'] += 1
     judge_steps(ctx, steps, outs[2:], seen, what='time_align_data after read(time_align)')
@@ -894,7 +1280,7 @@ def judge_read(ctx, seen, txt, steps, outs):
 # rd = {'types': [class names], 'types_form': 'class'|'type'|'mixed'|'single', 'align': 'none'|'drop'|'insert',
 #       'req': None | [class names], 'req_form', 'req_container', 'numpy': bool, 'keep': bool, 'remove_nan': bool,
 #       'bytes': bool, 'index': bool, 'ignore_cache': bool, 'max': None | int}
-ABSENT = ['GNSSSatelliteMessage', 'VersionInfoMessage']     # requested now and then, never in the file
+ABSENT = ['GNSSSatelliteMessage', 'VersionInfoMessage', 'CalibrationStatus', 'DeviceIDMessage']    # requested now and then when not in the file
 RD_DEFAULT = {'types_form': 'class', 'align': 'none', 'req': None, 'req_form': 'class', 'req_container': 'list', 'numpy': False,
               'keep': False, 'remove_nan': True, 'bytes': False, 'index': False, 'ignore_cache': False, 'max': None}
 
@@ -966,16 +1352,7 @@ def spec_view(txt, flags):
 
 
 def write_history_log(hist, workdir, tag):
-    import os
-    from fusion_engine_client.parsers import FusionEngineEncoder
-    data = build({'types': hist['written']})
-    queues = [list(md.messages) for md in data.values()]
-    path = os.path.join(workdir, 'c15_%s.p1log' % tag)
-    enc = FusionEngineEncoder()
-    with open(path, 'wb') as f:
-        for q in hist['order']:
-            f.write(enc.encode_message(queues[q].pop(0)))
-    return path
+    return write_wire_log(os.path.join(workdir, 'c15_%s.p1log' % tag), hist['written'], hist['order'])
 
 
 def run_read_history(ctx, hist, workdir, tag):
@@ -995,6 +1372,9 @@ def run_read_history(ctx, hist, workdir, tag):
         loader = DataLoader(path, save_index=True, ignore_index=False, num_threads=nthreads)
     ctx.count('read_history_index_file_' + kind)
     ctx.count('read_history_with_%d_reads' % len(hist['reads']))
+    ctx.count('file_grid_%s' % hist.get('grid'))
+    count_wire(ctx, hist['written'])
+    clock = WireClock(hist['written'])      # the times of the model are the wire times written into the log
     judged, done = [], []
     made_by = {}        # id(cache entry) -> number of the read that returned it first
     alive = []
@@ -1019,11 +1399,17 @@ def run_read_history(ctx, hist, workdir, tag):
                 ref = fresh[0].read(message_types=[by_name(n) for n in rd['types']], show_progress=False, ignore_cache=True,
                                     **({} if rd['max'] is None else {'max_messages': rd['max']}))
                 refs[rkey] = (ref, {k: [repr(canon.canon(m)) for m in md.messages] for k, md in ref.items()})
+                for md in ref.values():
+                    clock.learn(md.messages, complete_for=md.message_class.__name__ if rd['max'] is None else None)
             ref, ref_snaps = refs[rkey]
         except Exception as e:      # noqa
             ctx.violation(site + '-raised', note + 'read() raised %s: %s' % (type(e).__name__, e), hist)
             break
         alive.append((res, ref))
+        if clock.problems:
+            ctx.disagree('an unaligned read of a written log does not show the written messages (the harness relies on it): %s'
+                         % '; '.join(clock.problems[:3]), hist)
+            break
         for md in res.values():
             made_by.setdefault(id(md), j)
         if set(res.keys()) != set(ref.keys()):
@@ -1034,7 +1420,7 @@ def run_read_history(ctx, hist, workdir, tag):
         names = [ref[k].message_class.__name__ for k in keys]
         # one alignment of the fresh lists; a read without alignment is the alignment of no type
         step = {'mode': mode if mode != 'none' else 'drop', 'req': rd['req'] if mode != 'none' else [],
-                'types': [[n, [ftime(m) if has_p1(by_name(n)) else None for m in ref[k].messages]] for n, k in zip(names, keys)]}
+                'types': [[n, [clock(m) for m in ref[k].messages]] for n, k in zip(names, keys)]}
         originals = [list(ref[k].messages) for k in keys]
         snaps = [ref_snaps[k] for k in keys]
         views, flags, parts = [], {}, []
@@ -1061,7 +1447,8 @@ def run_read_history(ctx, hist, workdir, tag):
         data = dict(zip(keys, views))
         r = {'data': data, 'ret': data, 'keys': keys, 'mds': views, 'originals': originals,
              'ids': [{id(m): i for i, m in enumerate(lst)} for lst in originals], 'snaps': snaps,
-             'meta': [(ref[k].message_type, ref[k].message_class) for k in keys], 'err': None, 'matched_by_content': True}
+             'meta': [(ref[k].message_type, ref[k].message_class) for k in keys], 'err': None, 'matched_by_content': True,
+             'timeof': clock}
         classify(ctx, step)
         ctx.count('read_history_reads_' + mode)
         if rd['numpy']:
@@ -1077,7 +1464,7 @@ def run_read_history(ctx, hist, workdir, tag):
             key, _, items = s.partition(':')
             s = key + ':' + ('~' if cleared else items)
             if arr is not None:
-                s += '|' + ','.join(tkey(float(t)) for t in arr if t == t)
+                s += '|' + ','.join(tkey(clock.of_float(float(t))) for t in arr if t == t)
             txt.append(s)
         judged.append((step, ';'.join(txt), flags, ok, note, mode))
         ctx.case('readhist %s %s' % (read_text(rd), model_line('align', step)), nontrivial=mode != 'none' and nontrivial(step))
@@ -1132,16 +1519,29 @@ def file_order(rng, written):
 
 def read_history_grid(ctx):
     """Directed family: an aligning read R, a read P that touches the cache entries of SOME of R's types (or all, or
-    none) with other arguments, then R again (and a variant of R).  Log: two P1 types over every pair of subsets of a grid,
-    a third P1 type and a type without P1 time; R over {A,B} / {A,B,C} / {A,B,X} x {DROP, INSERT} x aligned_message_types."""
-    p1, nop1 = classes()
-    A, B, C = 'PoseMessage', 'PoseAuxMessage', 'GNSSInfoMessage'
-    X = 'EventNotificationMessage'
+    none) with other arguments, then R again (and a variant of R).  Log: two P1 types (of two different timestamp decoder
+    families in half of the logs, the classes rotate over all that can go through a log) over every pair of subsets of three
+    points of a grid of wire times, a third P1 type and a type without P1 time; R over {A,B} / {A,B,C} / {A,B,X} x {DROP, INSERT} x aligned_message_types."""
+    fams = file_families()
+    famlist = sorted(fams)
+    p1all = sorted(n for ns in fams.values() for n in ns)
+    nop1 = sorted(n for n, fc in file_classes().items() if not fc.p1)
     rng = ctx.rng
-    subs = list(subsets([1.0, 2.0, 3.0]))
+    subs = list(subsets([3, 6, 7]))         # on the 0.1 s grid from 0: 0.3, 0.6, 0.7 - none of them a float
     hists = []
+    n = 0
     for sa, sb in itertools.product(subs, subs):
-        written = [[A, sa], [B, sb], [C, [2.0, 3.0, 5.0]], [X, [None, None]]]
+        # A, B: every other log from two different decoder families; C, X and the grid of wire times rotate
+        n += 1
+        fa = famlist[n % len(famlist)]
+        A = fams[fa][(n // len(famlist)) % len(fams[fa])]
+        fb = famlist[(n + n // 2 % 2 + 1) % len(famlist)]
+        cand = [y for y in fams[fb] if y != A] or [y for y in p1all if y != A]
+        B = cand[(n // 3) % len(cand)]
+        C = [y for y in p1all if y not in (A, B)][n % (len(p1all) - 2)]
+        X = nop1[n % len(nop1)]
+        written, gname = to_wire([[A, sa], [B, sb], [C, [6, 7, 17]], [X, [None, None]]], rng, GRIDS[n % len(GRIDS)],
+                                 0 if n % 8 == 1 else None)
         for mode in ('drop', 'insert'):
             other = 'insert' if mode == 'drop' else 'drop'
             Rs = [rd_make([A, B], mode), rd_make([A, B, X], mode), rd_make([A, B, C], mode, [A, B]), rd_make([B, A, C], mode),
@@ -1155,7 +1555,7 @@ def read_history_grid(ctx):
                 for P in (Ps if ctx.thorough else rng.sample(Ps, 3)):
                     last = rng.choice([R, R, dict(R, numpy=True, keep=True), dict(R, types=list(reversed(T))), dict(R, align=other)])
                     reads = [R, P, R] + ([last] if rng.random() < 0.3 else [])
-                    hists.append({'via': 'read-history', 'written': written, 'order': file_order(rng, written),
+                    hists.append({'via': 'read-history', 'written': written, 'grid': gname, 'order': file_order(rng, written),
                                   'index_file': rng.choice(['none', 'saved', 'existing']), 'threads': 1,
                                   'reads': [dict(x) for x in reads]})
     return hists
@@ -1185,11 +1585,12 @@ def random_read(rng, present, earlier):
             rd[f] = not rd[f]
         return rd
     types = rng.sample(present, rng.randrange(1, len(present) + 1))
-    if rng.random() < 0.08:
-        types.append(rng.choice(ABSENT))
+    absent = [n for n in ABSENT if n not in present]
+    if rng.random() < 0.08 and absent:
+        types.append(rng.choice(absent))
     align = rng.choice(['none', 'drop', 'insert', 'drop', 'insert'])
     r = rng.random()
-    req = None if r < 0.5 else [n for n in types if rng.random() < 0.6] + ([rng.choice(PACKABLE + ABSENT)] if rng.random() < 0.2 else [])
+    req = None if r < 0.5 else [n for n in types if rng.random() < 0.6] + ([rng.choice(sorted(file_classes()))] if rng.random() < 0.2 else [])
     if req is not None:
         req = list(dict.fromkeys(req))
     numpy_, keep = rng.choice([(False, False), (False, False), (True, True), (True, False)])
@@ -1201,16 +1602,13 @@ def random_read(rng, present, earlier):
 
 def random_read_history(rng):
     """Random file (as random_case: nested / disjoint / empty / repeated / unordered / invalid times) and 2-4 reads."""
-    while True:
-        case = random_case(rng)
-        written = [[nm, [None if t is None else float(abs(int(t))) for t in ts][:10]] for nm, ts in case['types'] if nm in PACKABLE]
-        if written:
-            break
+    case = random_file_case(rng, limit=10)
+    written = case['types']
     present = [nm for nm, _ in written]
     reads = []
     for _ in range(rng.choice([2, 3, 3, 3, 4])):
         reads.append(random_read(rng, present, reads))
-    return {'via': 'read-history', 'written': written, 'order': file_order(rng, written),
+    return {'via': 'read-history', 'written': written, 'grid': case['grid'], 'order': file_order(rng, written),
             'index_file': rng.choice(['none', 'saved', 'existing']), 'threads': 1 if rng.random() < 0.97 else None, 'reads': reads}
 
 
@@ -1225,7 +1623,9 @@ def run(ctx, budget):
     hists += history_sequences(ctx, 6000 if ctx.thorough else 800)
     hists += [random_history(ctx.rng) for _ in range(budget)]
     run_histories(ctx, hists)
-    run_read_cases(ctx, 400 if ctx.thorough else 100)
+    wg = wire_grid(ctx)
+    ctx.count('wire_grid_cases', len(wg))
+    run_read_cases(ctx, wg + random_read_cases(ctx, 400 if ctx.thorough else 100))
     grid = read_history_grid(ctx)
     ctx.count('read_history_grid', len(grid))
     rnd = [random_read_history(ctx.rng) for _ in range(4000 if ctx.thorough else 700)]
@@ -1273,11 +1673,36 @@ def check(ctx):
                        'the lists a loader that never aligns and never serves from its cache reads for the same types and '
                        'max_messages, objects matched by content; with return_numpy the valid times of the numeric p1_time member are '
                        'compared with the same spec result (with keep_messages=False that member is all that is left of a type). '
+                       'DATA READ FROM A LOG (all stages that write a file): the harness writes the P1 time of every message itself as '
+                       'the wire integers (seconds, nanoseconds) on a grid of 1 s (also with a constant fraction) / 0.1 s / 1 ms / 1 ns from '
+                       'a base of 0 / < 1000 s / < 2^20 s, into payloads of every class that can go through a log (discovered: a '
+                       'default instance packs and unpacks, a field carries a serial through pack()/unpack(), the 8 payload bytes of '
+                       'p1_time are located and verified) - P1-time classes of EVERY timestamp decoder family (family = the functions '
+                       'of messages/timestamp.py that the class\'s unpack() runs, observed with sys.setprofile; random logs draw two '
+                       'classes of every family) and classes without P1 time.  The time of the model / spec / oracle is the WIRE value '
+                       'seconds*10^9+nanoseconds of the written message (known by its serial); an entry that is no message of the log '
+                       'has the wire time of the messages whose decoded float it equals exactly, else it is reported '
+                       '(inserted-time-is-no-time-of-the-data); at every position the floats of all aligned types must be equal '
+                       '(timestamps-at-one-position-differ).  Directed wire grids: every P1-time class x a partner from every decoder '
+                       'family (quick: one rotating partner per family; thorough: all) [+ a third type], 20 epochs with different '
+                       'holes per type, repeated / unordered epochs, DROP and INSERT on the 0.1 s grid from 0 plus one more grid and '
+                       'base (thorough: all four grids), aligned by read(time_align=...) or by time_align_data() on the dict of an '
+                       'unaligned read (objects then known by id()). '
                        'non-trivial = at least two aligned types, '
                        'one of them non-empty; distinct = distinct (mode, message_types, per-type time lists)')
     ctx.assumptions += [
-        'times are exactly representable floats (integers and half-integers scaled to integers for the model); the theorems are over '
-        'Option Int with none = NaN, float rounding plays no role in time_align_data (only ==, sort)',
+        'in-memory stages (dicts built from message objects): times are exactly representable floats (integers and half-integers '
+        'scaled to integers for the model); the theorems are over Option Int with none = NaN, float rounding plays no role in '
+        'time_align_data (only ==, sort)',
+        'file-based stages (read_case, wire grids, read histories): the "exactly representable times" assumption is LIFTED - the '
+        'harness writes wire timestamps (seconds, nanoseconds) on 0.1 s / 1 ms / 1 ns grids, most of which no float represents '
+        '(counted: file_wire_times_that_no_float_represents_exactly), and the abstract time of the Lean model is the wire value '
+        'seconds*10^9+nanoseconds written into the log, not a decoded float: two messages written with the same wire timestamp are '
+        'at the same epoch, DROP must keep exactly the wire epochs present in all aligned types, INSERT exactly the union, each '
+        'once, ascending, and an inserted default must carry exactly the float of the real messages of that epoch.  The Lean model '
+        'stays over abstract ordered times (Option Int); the harness maps wire timestamps to them.  Remaining assumption: wire '
+        'seconds < 2^20 (so that distinct wire times can decode to distinct, equally ordered floats; the harness checks on every '
+        'log that the unaligned read shows every written message and that no two wire times decode to one float)',
         'np.unique / np.intersect1d(return_indices=True) are modelled by their documented semantics (sorted distinct values, '
         'first-occurrence indices, NaN last / collapsed / never equal) and compared with numpy directly on random arrays',
         'object identity is id() with every input object kept alive; "unchanged content" is tools/canon.py canon() before/after of every '
@@ -1313,21 +1738,9 @@ def replay(ctx, path):
     elif case.get('via') == 'read-history':
         run_read_histories(ctx, [case])
     elif case.get('via') == 'read':
-        import shutil
-        import tempfile
-        workdir = tempfile.mkdtemp(prefix='c15_', dir=fv.BUILD)
-        try:
-            c = {'mode': case['mode'], 'req': case['req'], 'types': case['written'],
-                 'read_numpy': case.get('read_numpy', False), 'ops': case.get('ops', []), 'threads': case.get('threads')}
-            res = read_case(ctx, c, workdir, 'replay')
-            if res is not None:
-                seen, txt, steps = res
-                lines = [model_line('align', seen), model_line('alignspec', seen)]
-                for step, _, _, _ in steps:
-                    lines += [model_line('align', step), model_line('alignspec', step)]
-                judge_read(ctx, seen, txt, steps, ctx.driver(lines))
-        finally:
-            shutil.rmtree(workdir, ignore_errors=True)
+        run_read_cases(ctx, [{'mode': case['mode'], 'req': case['req'], 'types': case['written'], 'order': case.get('order'),
+                              'grid': case.get('grid'), 'read_numpy': case.get('read_numpy', False),
+                              'read_align': case.get('read_align', True), 'ops': case.get('ops', []), 'threads': case.get('threads')}])
     elif 'ops' in case:
         run_histories(ctx, [case])
     else:
